@@ -150,3 +150,38 @@ Proof.
       destruct Hr as (i & <- & Hi). apply in_seq in Hi. exists i. split; [lia|].
       apply existsb_exists in Hx. destruct Hx as (j' & Hj' & Ej). apply Nat.eqb_eq in Ej. now subst j'.
 Qed.
+
+(* ---------- no accessor panics once NilNode implements the asserted category ---------- *)
+(* what the generated code guarantees for a field with a type assertion to a category: the category exists,
+   lists every node type of the field's (expanded) selector, and NilNode implements it (every category but the
+   synthetic TokenSet, which no field can name) *)
+Definition assert_covers (cats : list category) (f : field) : Prop :=
+  (0 < f_assert f)%Z ->
+  exists c, nth_error cats (Z.to_nat (f_assert f - 1)) = Some c /\ c_nil c = true /\
+            forall t, sel_has (f_sel f) t = true -> sel_has (c_types c) t = true.
+
+Lemma assert_ok_covered : forall cats f t,
+  assert_covers cats f ->
+  (t = None \/ exists ty, t = Some ty /\ sel_has (f_sel f) ty = true) ->
+  assert_ok cats (f_assert f) t = true.
+Proof.
+  intros cats f t HC Ht. unfold assert_ok. destruct (f_assert f <=? 0)%Z eqn:L; [reflexivity|].
+  apply Z.leb_gt in L. destruct (HC L) as (c & Hc & Hn & Hs). rewrite Hc.
+  destruct Ht as [->|(ty & -> & Hty)]; [exact Hn | now apply Hs].
+Qed.
+
+Theorem accessor_never_panics : forall cats fs i kids f,
+  nth_error fs i = Some f -> assert_covers cats f -> accessor cats fs i kids <> RPanic.
+Proof.
+  intros cats fs i kids f Hf HC. unfold accessor. rewrite Hf.
+  destruct (f_list f).
+  - match goal with |- context [forallb ?p ?l] => assert (E : forallb p l = true) end.
+    { apply forallb_forall. intros j Hj. apply step_all_spec in Hj. destruct Hj as (_ & t & Hj & Hs).
+      apply assert_ok_covered; [exact HC|]. right. now exists t. }
+    rewrite E. discriminate.
+  - destruct (step_one kids _ (f_sel f)) as [| |k] eqn:E.
+    + rewrite (assert_ok_covered cats f None HC (or_introl eq_refl)). discriminate.
+    + rewrite (assert_ok_covered cats f None HC (or_introl eq_refl)). discriminate.
+    + apply step_one_spec in E. destruct E as (_ & t & Hk & Hs).
+      rewrite (assert_ok_covered cats f (nth_error kids k) HC); [discriminate|]. right. now exists t.
+Qed.
